@@ -80,6 +80,18 @@ CLAIMED.update({
    note="A correct peer is assumed to know the validator's share and duties. p2pNetwork.Broadcast's envelope step (6 lines) is re-implemented in the transport stub with the real operator keys. The consumer loop of the validator queue (state, filter) is re-implemented around the real queue and prioritizer. Lost messages are never delivered late."),
 })
 
+VT = "deterministic simulation: the real message validator with real node storage, duty store and operator RSA keys under the synctest fake clock, fed by real QBFT controllers (honest traffic of committees of 4/7/10/13) and by a Byzantine input generator; "
+CLAIMED.update({
+ "C08": dict(engine="valsim", cat="exploration", ref="DESIGN.md §3 C08, §11.7",
+   technique=VT + "every call guarded: recovered panic, real-time and allocation bound",
+   text="Seeded programs interleave slot/time advance, duties, honest gossip (which builds per-signer history), round timeouts and injections: raw bytes at four nesting depths, byte-level mutations of honest messages with re-signed envelopes, structurally valid messages with boundary field values (round 0 / 2^63 / 2^64-1, height 0 / max, 0 / 14 / unsorted / duplicate signers, unknown types and roles, truncated and oversize justifications, data up to 9 MiB) on right and wrong topics for known, unknown, liquidated, exited and metadata-less validators, through ValidatePubsubMessage and ValidateSSVMessage; a share of each run feeds mutated inputs to the 9 standalone decoders (seeded input mutation only - they have no schedule). One defect repaired (fix: dc64b1189).",
+   note="A call that never returns cannot become a violation record: an out-of-bubble watchdog prints the input and the worker times out (exit 2). Go-heap allocations only. Concurrent validation is not simulated. Simulator written by a builder sub-agent, reviewed and re-run by me."),
+ "C09": dict(engine="valsim", cat="exploration", ref="DESIGN.md §3 C09, §11.7",
+   technique=VT + "reference rule predicate on every accepted message and single-rule mutants of every honest message",
+   text="Oracle 1: every ACCEPTED message is judged by a reference predicate written from the statement (own validator and operator-key tables, topic, leader, quorum and window arithmetic with wider windows than the implementation's, stdlib RSA, own per-signer record). Oracle 2: before every honest message up to 32 single-rule mutants of it, and after its acceptance 6 history mutants, are gossiped with correctly re-signed envelopes; a mutant the reference confirms as rule-breaking must not be accepted (about 2 million mutants per quick run). Two defects repaired (fix: f17d666b5, f763c0541), one known finding (partial-signature messages have no slot window, two signatures).",
+   note="The 'schedules' part of the quantifier (concurrent validation sharing per-signer state) is NOT covered. BLS message signatures are not a gossip rule of the statement and are not judged. Simulator written by a builder sub-agent, reviewed and re-run by me."),
+})
+
 NOT_YET = {}
 ALL = ["C%02d" % i for i in range(1, 19)]
 NA = {
